@@ -1,6 +1,7 @@
 SPECIFICATION GSpec
 CONSTANTS
   Fused = TRUE
+  SoftReest = FALSE
   MaxAdds = 4
   MaxHeight = 1000
   MaxDisc = 3
